@@ -121,14 +121,31 @@ func mathLdexp(L *LState) int {
 	return 1
 }
 
+// lnOf and log10Of are math.Log and math.Log10. The assembly implementation of math.Log used on amd64
+// takes the exponent field of a subnormal argument as it is (math.Log(5e-324) is -709.09 where the
+// logarithm is -744.44): a subnormal argument is scaled into the normal range first.
+func lnOf(x float64) float64 {
+	if x > 0 && x < 0x1p-1022 {
+		return math.Log(x*0x1p+54) - 54*math.Ln2
+	}
+	return math.Log(x)
+}
+
+func log10Of(x float64) float64 {
+	if x > 0 && x < 0x1p-1022 {
+		return math.Log10(x*0x1p+54) - 54*(math.Ln2/math.Ln10)
+	}
+	return math.Log10(x)
+}
+
 func mathLog(L *LState) int {
-	L.Push(LNumber(math.Log(float64(L.CheckNumber(1)))))
+	L.Push(LNumber(lnOf(float64(L.CheckNumber(1)))))
 	return 1
 }
 
 func mathLog10(L *LState) int {
 	x := float64(L.CheckNumber(1))
-	v := math.Log10(x)
+	v := log10Of(x)
 	// Go computes log10 as log2(x) * (ln 2 / ln 10), which misses the exact powers of ten
 	// (log10(1000) = 2.9999999999999996): where the nearest integer is the exact answer, it is the answer
 	if r := math.Round(v); r != v && math.Abs(r-v) < 1e-9 && r >= -323 && r <= 308 {
